@@ -273,8 +273,14 @@ def check(F, rep, tier):
     pu = zfn(F, "<impl crate::version::zerv::core::Zerv>::parse_optional_u32")
     if rep.anchor("R05.6", "Zerv::parse_optional_u32", pu):
         rep.fn_seen(pu)
-        ok = any("parse" in (mir.callee(t) or "") and (t[1].get("targs") or [""])[0] == "u32" for bi, t in pu.calls()) and any("map_err" in (mir.callee(t) or "") for bi, t in pu.calls()) and any("Try>::branch" in (mir.callee(t) or "") for bi, t in pu.calls())
-        if ok: rep.ok("R05.6", "non-numeric value for a numeric component is an error (parse::<u32>().map_err(..)?)", nontrivial_key="nonnum")
+        scope_pu = [pu] + mir.closures_in(F, pu)
+        calls_pu = [(g_, bi, t) for g_ in scope_pu for bi, t in g_.calls()]
+        has_parse = any("parse" in (mir.callee(t) or "") and (t[1].get("targs") or [""])[0] == "u32" for g_, bi, t in calls_pu)
+        propagated = any("Try>::branch" in (mir.callee(t) or "") or (mir.callee(t) or "").endswith("::transpose") for g_, bi, t in calls_pu)
+        swallowed = [(mir.callee(t) or "").rsplit("::", 1)[-1] for g_, bi, t in calls_pu if "ParseIntError" in (t[1].get("full") or "") and (mir.callee(t) or "").rsplit("::", 1)[-1] in ("ok", "unwrap_or", "unwrap_or_default", "unwrap_or_else", "is_ok")]
+        if has_parse and propagated and not swallowed: rep.ok("R05.6", "non-numeric value for a numeric component is an error (parse::<u32>() failure propagated)", nontrivial_key="nonnum")
+        elif swallowed: rep.bad("R05.6", "non-numeric-accepted", "parse_optional_u32 discards a parse failure with %s" % swallowed, pu.where())
+        elif not has_parse: rep.undecided("R05.6", "parse-optional-shape", "parse_optional_u32 does not parse with str::parse::<u32>", pu.where())
         else: rep.bad("R05.6", "non-numeric-accepted", "parse_optional_u32 does not propagate a parse failure", pu.where())
     pp = zfn(F, "<impl crate::version::zerv::core::Zerv>::parse_and_validate_process_specs")
     if rep.anchor("R05.6", "Zerv::parse_and_validate_process_specs", pp):
